@@ -32,6 +32,12 @@ case = {"paras": [{"fields":   [[name, [first, [cont, ...]]], ...],
                                             these codecs (skipped if the codec cannot express the text)
    or  {"kind": "aligned", "unit": u, "n": paragraphs, "target": place, "measure": "bytes"|"chars",
         "codecs": [...]}                    a big plain document, see "big documents" below
+   or  {"kind": "many", "n": paragraphs, "fields": k, "conts": c,
+        "comments": [[pos, text], ...], "armor": null | {...}, "layout": {...}}
+                                            a document of n paragraphs of k fields each, the second
+                                            field (the only one if k = 1) with c continuation lines;
+                                            comments, armor (as in "paras") apply to every paragraph;
+                                            see "many paragraphs" below
 
 Every paragraph is built by assignment into an empty ``Deb822`` and dumped.  If the case lists
 refused assignments the paragraph is built a second time by a caller who, in between, tries to
@@ -114,7 +120,11 @@ RULE = ("a case is a document of 1..4 paragraphs x 1..5 fields (Policy-valid nam
         "pairs of them, with a second paragraph built afterwards; big documents "
         "(140 KiB - 1 MiB) whose line ends, separator lines, line middles or character middles lie on every "
         "multiple of 4096 / 1024 (thorough: also 1000, 5000, 8192) bytes or characters, read in all forms "
-        "including real files and a UTF-16 text file. "
+        "including real files and a UTF-16 text file; documents whose size is a count, not a length: 1000, 3000 "
+        "and 20000 short paragraphs (plain, with blank-line runs, with comment blocks between and comment lines "
+        "inside the paragraphs, with CR LF, every paragraph clearsigned), 1000..5000 fields in one paragraph, "
+        "1000..20000 continuation lines in one value (thorough: 20000 paragraphs in every configuration, 20000 "
+        "fields, 100000 continuation lines), built, dumped, assembled and read in all forms like any other case. "
         "Non-trivial = at least one multi-line value or at least two paragraphs; distinct = "
         "distinct canonical JSON of the case")
 ASSUMPTIONS = [
@@ -156,6 +166,14 @@ ASSUMPTIONS = [
     "the geometry of the big documents (which offset a line end falls on) is computed assuming that dump() "
     "writes 'Name: value' lines; the label 'aligned:...' is only given when the assembled document really has "
     "the chosen place on every multiple of the unit (else 'alignment-lost'); the expected reading does not depend on it",
+    "the number of paragraphs in a document, of fields in a paragraph and of continuation lines in a value is "
+    "not bounded by the statement ('documents of 1..n paragraphs'); the counts used (up to 20000 paragraphs / "
+    "fields, 100000 lines; Packages files of Debian have 60000+ paragraphs) are read by the unchanged tree in "
+    "every form; such a document is written in the case as counts and expanded by the harness into numbered "
+    "paragraphs 'Package: pkg-<i>', 'Field-<j>: value <i>.<j>' with numbered continuation lines",
+    "a RecursionError whose traceback passes through the library is reported as a violation like any other "
+    "exception from the library (the engine alone would call it a harness error): the harness does not recurse "
+    "and Python's default recursion limit (1000) is what a caller of the library runs with",
     "Hypothesis 6.168 generators; sha1 for distinctness",
 ]
 _EXH = ("21 boundary first lines x every sequence of 0..2 continuation lines from 16 boundary lines "
@@ -178,8 +196,18 @@ _EXH_BIG = ("documents of 36 paragraphs x 4096 and of 140 paragraphs x 1024 byte
             "the first field, behind the first line of a multi-line value, between and behind continuation lines, "
             "behind the last field, inside a line, inside a 4-byte character): 30 documents of 140-144 KiB")
 _EXH_BIG_T = _EXH_BIG + "; the same for units of 1000 and 5000 (140-150 KiB) and 8192 (1 MiB): 75 documents"
-EXHAUSTIVE = {"quick": "; ".join([_EXH, _EXH_GAPS, _EXH_EOL, _EXH_REFUSED, _EXH_DUMPS, _EXH_BIG]),
-              "thorough": "; ".join([_EXH, _EXH_GAPS, _EXH_EOL, _EXH_REFUSED, _EXH_DUMPS, _EXH_BIG_T])}
+_EXH_MANY = ("documents of 1000 and of 3000 two-field paragraphs (one continuation line each) in 5 configurations: "
+             "plain (also real files and a UTF-16 text file); runs of 1..3 blank lines, some holding SPACE/TAB, between, "
+             "before and behind the paragraphs; a comment block between the paragraphs and at the start plus 3 comment "
+             "lines inside every paragraph (also real files); CR LF terminators without a final newline; every paragraph "
+             "clearsigned with comment lines inside and in front of the armor; 20000 such paragraphs plain; paragraphs "
+             "of 1000, 1200, 3000 (two of them) and 5000 fields; values of 1000, 1200, 5000 (in one and in three "
+             "paragraphs) and 20000 continuation lines, spread over the same configurations (21 documents)")
+_EXH_MANY_T = _EXH_MANY + ("; 20000 paragraphs in the other four configurations, 20000 fields in one paragraph (plain, "
+                           "commented), 100000 continuation lines in one value (plain, clearsigned), 300 paragraphs x "
+                           "30 fields x 30 continuation lines (30 documents)")
+EXHAUSTIVE = {"quick": "; ".join([_EXH, _EXH_GAPS, _EXH_EOL, _EXH_REFUSED, _EXH_DUMPS, _EXH_BIG, _EXH_MANY]),
+              "thorough": "; ".join([_EXH, _EXH_GAPS, _EXH_EOL, _EXH_REFUSED, _EXH_DUMPS, _EXH_BIG_T, _EXH_MANY_T])}
 BUDGET = {"quick": 200, "thorough": 1500}
 
 BEGIN_MSG = "-----BEGIN PGP SIGNED MESSAGE-----"
@@ -524,6 +552,45 @@ def aligned_as_specified(spec, text):
 
 
 # ------------------------------------------------------------------------------------------
+# many paragraphs, many fields, many continuation lines
+#
+# case = {"kind": "many", "n": paragraphs, "fields": k, "conts": c, "comments": [[pos, text], ...],
+#         "armor": null | {...}, "layout": {...}}
+# stands for the document of n short paragraphs, each of k fields ("Package: pkg-<i>", then
+# "Field-<j>: value <i>.<j>"), in which the second field (the only one if k = 1) has c continuation
+# lines; the comment lines and the armor are those of *every* paragraph, the layout is an ordinary
+# layout (its separators - blank-line runs, free-standing comment blocks - are cycled over the
+# gaps).  The sizes are written as counts, so that the case stays small; everything else (how the
+# paragraphs are built, dumped, assembled, read and compared) is what is done for any other case.
+
+MANY_LIMIT = 400000          # lines of payload a case may ask for
+_MANY_CONT = [" continuation line %d", "\tcontinuation line %d: x", " .", " # %d 漢"]
+
+
+def _many_fields(i, k, c):
+    fields = [["Package", ["pkg-%d" % i, []]]]
+    fields += [["Field-%d" % j, ["value %d.%d" % (i, j), []]] for j in range(1, k)]
+    if c:
+        fields[min(1, k - 1)][1][1] = [_MANY_CONT[x % len(_MANY_CONT)].replace("%d", str(x)) for x in range(c)]
+    return fields
+
+
+def valid_many(spec):
+    return (_is_int(spec.get("n"), 1, MANY_LIMIT) and _is_int(spec.get("fields"), 1, MANY_LIMIT)
+            and _is_int(spec.get("conts"), 0, MANY_LIMIT)
+            and spec["n"] * (spec["fields"] + spec["conts"]) <= MANY_LIMIT
+            and isinstance(spec.get("comments", []), list) and len(spec.get("comments", [])) <= 16
+            and isinstance(spec.get("layout"), dict))
+
+
+def expand_many(spec):
+    comments, armor = spec.get("comments", []), spec.get("armor")
+    paras = [{"fields": _many_fields(i, spec["fields"], spec["conts"]), "comments": comments, "armor": armor}
+             for i in range(spec["n"])]
+    return {"paras": paras, "layout": spec["layout"]}
+
+
+# ------------------------------------------------------------------------------------------
 # document assembly
 
 
@@ -738,12 +805,45 @@ def read_all(lines, final_newline, expected, single, gpg_classes, tmp=None, code
     return bad
 
 
+_LIB_DIR = os.path.dirname(os.path.realpath(Deb822.__init__.__code__.co_filename))
+
+
 def check(case):
-    spec = None
+    """The oracle; a RecursionError that comes out of the library is a failed reading, not a
+    harness problem: a Deb822 document is flat (there is nothing in it to recurse over) and the
+    harness itself does not recurse, so only the library can have piled up frames with the
+    number of paragraphs, fields or lines."""
+    try:
+        return _check(case)
+    except RecursionError as e:
+        where, tb = None, e.__traceback__
+        while tb is not None:
+            code = tb.tb_frame.f_code
+            if os.path.realpath(code.co_filename).startswith(_LIB_DIR + os.sep):
+                where = "%s:%s" % (os.path.basename(code.co_filename), code.co_name)
+            tb = tb.tb_next
+        if where is None:
+            raise
+        if isinstance(case, dict) and case.get("kind") == "many":
+            what = "a document of %s paragraphs x %s fields, %s continuation lines in one value" % (
+                case.get("n"), case.get("fields"), case.get("conts"))
+        else:
+            what = short(case, 300)
+        raise Violation("EXC:RecursionError@%s" % where,
+                        "RecursionError (innermost library frame %s) while building, dumping or reading %s"
+                        % (where, what))
+
+
+def _check(case):
+    spec = many = None
     if isinstance(case, dict) and case.get("kind") == "aligned":
         if not valid_aligned(case):
             return (False, ("invalid-or-out-of-domain-case-skipped",))
         spec, case = case, expand_aligned(case)
+    elif isinstance(case, dict) and case.get("kind") == "many":
+        if not valid_many(case):
+            return (False, ("invalid-or-out-of-domain-case-skipped",))
+        many, case = case, expand_many(case)
     if not valid_case(case):
         return (False, ("invalid-or-out-of-domain-case-skipped",))
     paras = case["paras"]
@@ -943,6 +1043,11 @@ def check(case):
             labels.append("text-file-codec-not-applicable")
     if plain_cuts or full_cuts:
         labels.append("file-object-advanced-by-readline")
+    if many is not None:
+        for what, count in (("paragraphs", many["n"]), ("fields-in-a-paragraph", many["fields"]),
+                            ("continuation-lines-in-a-field", many["conts"])):
+            if count >= 1000:
+                labels.append("many-%s:%s" % (what, ">=20000" if count >= 20000 else ">=3000" if count >= 3000 else ">=1000"))
     if spec is not None:
         labels.append("big-document")
         labels.append("aligned:%s/%s" % (spec["target"], spec["measure"])
@@ -1132,6 +1237,49 @@ def enum_aligned(tier):
     return gen
 
 
+# layouts and paragraph configurations of the documents of many paragraphs / fields / lines
+_MANY_CONFIGS = [
+    # (name, layout, comments of every paragraph, armor of every paragraph)
+    ("plain", dict(PLAIN_LAYOUT, files=True, codecs=["utf-16"]), [], None),
+    ("blank-line-runs", dict(PLAIN_LAYOUT, lead=2, trail=2, ws=["", " ", "\t", "", " \t"],
+                             seps=[{"blank": 2, "free": [], "blank2": 1}, {"blank": 1, "free": [], "blank2": 1},
+                                   {"blank": 3, "free": [], "blank2": 1}]), [], None),
+    ("comments", dict(PLAIN_LAYOUT, lead_free=[" head"], files=True,
+                      seps=[{"blank": 1, "free": [" between: paragraphs"], "blank2": 1},
+                            {"blank": 2, "free": [" a", "b: c"], "blank2": 2},
+                            {"blank": 1, "free": [], "blank2": 1}]),
+     [[0, " first"], [1, ""], [2, " x: y"]], None),
+    ("CRLF", dict(PLAIN_LAYOUT, eols=["\r\n"], final_newline=False), [], None),
+    ("clearsigned", dict(PLAIN_LAYOUT, seps=[{"blank": 1, "free": [" c"], "blank2": 1}]), [[1, " in: side"]],
+     dict(BASIC_ARMOR, pre=[" in front"])),
+]
+
+
+def enum_many(tier):
+    """Documents of 1000 and more paragraphs, paragraphs of 1000 and more fields, values of 1000
+    and more continuation lines - in every configuration above where it is affordable."""
+    def gen():
+        cfg = dict((c[0], c) for c in _MANY_CONFIGS)
+        # the expensive ones first: the engine hands the k-th case to worker k
+        shapes = []
+        if tier == "thorough":
+            shapes += [(20000, 2, 1, c[0]) for c in _MANY_CONFIGS[1:]]
+            shapes += [(1, 20000, 1, "plain"), (1, 20000, 0, "comments"), (1, 2, 100000, "plain"),
+                       (1, 2, 100000, "clearsigned"), (300, 30, 30, "comments")]
+        shapes += [(20000, 2, 1, "plain"), (1, 3, 20000, "CRLF"), (1, 5000, 1, "clearsigned")]
+        for n in (3000, 1000):
+            shapes += [(n, 2, 1, c[0]) for c in _MANY_CONFIGS]
+        shapes += [(1, 1000, 0, "plain"), (2, 3000, 1, "blank-line-runs"),
+                   (1, 1200, 0, "comments"), (1, 1000, 2, "CRLF"),
+                   (1, 3, 1000, "plain"), (1, 1, 5000, "clearsigned"),
+                   (3, 2, 5000, "blank-line-runs"), (1, 2, 1200, "comments")]
+        for n, k, c, name in shapes:
+            _, layout, comments, armor = cfg[name]
+            yield {"kind": "many", "n": n, "fields": k, "conts": c, "comments": comments, "armor": armor,
+                   "layout": layout}
+    return gen
+
+
 _b64 = st.text(alphabet=st.sampled_from("ABCxyz019+/"), min_size=1, max_size=20)
 armor_spec = st.fixed_dictionaries({
     "headers": st.lists(st.sampled_from(ARMOR_HEADERS), max_size=2),
@@ -1203,14 +1351,16 @@ def gen_case(draw):
 
 def sources(tier):
     if tier == "quick":
-        return [Enum("boundary-values", enum_cases(), _EXH),
+        return [Enum("many-paragraphs-fields-lines", enum_many("quick"), _EXH_MANY),
+                Enum("boundary-values", enum_cases(), _EXH),
                 Enum("blank-line-gaps", enum_gaps(), _EXH_GAPS),
                 Enum("line-terminators", enum_terminators(), _EXH_EOL),
                 Enum("refused-assignments", enum_refused(), _EXH_REFUSED),
                 Enum("dumps-with-parameters", enum_dumps(), _EXH_DUMPS),
                 Enum("aligned-big-documents", enum_aligned("quick"), _EXH_BIG),
                 Hyp("documents", gen_case(), 600, shards=10)]
-    return [Enum("boundary-values", enum_cases(), _EXH),
+    return [Enum("many-paragraphs-fields-lines", enum_many("thorough"), _EXH_MANY_T),
+            Enum("boundary-values", enum_cases(), _EXH),
             Enum("blank-line-gaps", enum_gaps(), _EXH_GAPS),
             Enum("line-terminators", enum_terminators(), _EXH_EOL),
             Enum("refused-assignments", enum_refused(), _EXH_REFUSED),
